@@ -61,7 +61,7 @@ def build(goodwe, family, variant, transport, seed, fill):
 
 
 def es_block(dev, cmd):
-    n = ES_RUNTIME_LEN if cmd == 0x0106 else getattr(dev, "es_settings_len", ES_SETTINGS_LEN)
+    n = getattr(dev, "es_runtime_len", ES_RUNTIME_LEN) if cmd == 0x0106 else getattr(dev, "es_settings_len", ES_SETTINGS_LEN)
     base = 200000 if cmd == 0x0106 else 300000
     if dev.fill == "step":
         return bytes(dev.step_byte(base + j) for j in range(n))
